@@ -356,10 +356,17 @@ class ElementList(MutableSequence):
 
         child_to_remove = self.child_at_index(child_name, index)
 
-        if child_to_remove is None:
-            self.append(child)
+        if child_to_remove is child:
+            pass  # the child is assigned to the place it already has
         else:
-            self.replace_child(child_to_remove, child)
+            if child.parent is self.element and any(c is child for c in self.list):
+                # one of the children is assigned to another place (s.pid_3[0] = s.pid_3[1]): it moves there
+                # instead of being listed twice
+                self.remove(child)
+            if child_to_remove is None:
+                self.append(child)
+            else:
+                self.replace_child(child_to_remove, child)
 
         # a set has been called, change the temporary parent to be the actual one
         self.element.set_parent_to_traversal()
